@@ -2795,6 +2795,10 @@ class ModuleGen(object):
             return self.const_types[name]
         if name in self.in_progress:
             raise Py2LeanUnsupported(self.mod.relpath, at, 'cyclic module-level constant %s' % name)
+        if name not in self.mod.assigns:
+            ty = self.imported_const(name, at)      # (w5-codersrc) `from pybufrkit.<module> import NAME`
+            if ty is not None:
+                return ty
         node = self.mod.const_node(name, at)
         self.in_progress.add(name)
         ec = ExprCompiler(self.mod, self)
@@ -2812,6 +2816,23 @@ class ModuleGen(object):
         self.const_order.append(name)
         self.items.append({'kind': 'const', 'name': name, 'lines': [a, b]})
         return ex.ty
+
+    def imported_const(self, name, at):
+        """(w5-codersrc) a constant imported by `from pybufrkit.<module> import NAME` from a module that has its own
+        generated file, where NAME is one of the constants listed for that module in SPEC: the generated file of this
+        module imports that generated file and opens the name (the constant is translated once, in its own file)"""
+        for spec2 in SPEC:
+            if spec2 is self.spec or name not in spec2.get('consts', []):
+                continue
+            if not module_imports(self.mod, 'pybufrkit.' + spec2['module'], name):
+                continue
+            ty = ModuleGen(spec2).require_const(name, at)
+            if not hasattr(self, 'opened'):
+                self.opened = {}
+            self.opened.setdefault(spec2['module'], (gen_module_name(spec2), []))[1].append(name)
+            self.const_types[name] = ty
+            return ty
+        return None
 
     def require_imported_const(self, name, module, at):
         """a constant imported with `from pybufrkit.<m> import NAME`: translated from the source of that module"""
@@ -2905,6 +2926,9 @@ class ModuleGen(object):
                 'import BufrModel.Gen.PyPrelude',
                 'set_option linter.unusedVariables false',
                 'namespace PyGen.%s' % spec['module'], '']
+        for m2, (gm, names) in sorted(getattr(self, 'opened', {}).items()):   # (w5-codersrc) imported constants
+            head.insert(head.index('import BufrModel.Gen.PyPrelude') + 1, 'import %s' % gm)
+            head.insert(len(head) - 1, 'open PyGen.%s (%s)' % (m2, ' '.join(lean_ident(n) for n in names)))
         body = []
         for name in self.const_order:
             body.append(self.const_text[name])
